@@ -55,7 +55,7 @@ structure StableCG (G : KState → Key → Prop) (P : KState → Prop) : Prop wh
     P (s.modify k fun n => { n with holding := n.holding - 1 })
   /-- `Step.after_recycle` -/
   recycled : ∀ (s : KState) (k : Key) (need : Need) (shell : Bool), P s →
-    P (s.modify k fun n => { n with need := need, shell := shell, holding := 0 })
+    P (s.modify k fun n => { n with need := need, shell := shell })
   /-- `INSERT INTO dependency` after the cycle check of `_supply_files` / `check_sources_acyclic`
   (the source is not a recursive sink of the sink), UNIQUE and `dependency_check_kinds_ins` -/
   addDep : ∀ (s : KState) (src snk : Key), (s.sinkClosure snk).contains src = false →
@@ -1133,7 +1133,7 @@ theorem afterRecycle_preserves (L : StableCG G P) (sk : Key) (d : StepDecl) (n :
   intro s s' hp h
   replace h : s.afterRecycle sk d n = .ok s' := h
   unfold KState.afterRecycle at h
-  have hp2 : P (s.modify sk fun n => { n with need := d.need, shell := d.shell, holding := 0 }) :=
+  have hp2 : P (s.modify sk fun n => { n with need := d.need, shell := d.shell }) :=
     L.recycled _ _ _ _ hp
   split at h
   · exact L.markStepPending'_preserves sk _ s' hp2 h
